@@ -21,6 +21,7 @@ EXPLANATION = (
     "{update_from,try_update_from} = command_for_update() + update_from_arg_matches_mut; no cross-over. R15.4 "
     "ValueEnum::from_str iterates value_variants() and tests to_possible_value().matches(input, ignore_case). "
     "NOT decided: success-equivalence with the generated command on every argv, the print/parse round trip, update histories."
+    ' R15.1 (added): update_from_arg_matches delegates to a flattened field unconditionally.'
 )
 TRUSTED = ["rustc (macro expansion + type check of the corpus)", "clapfacts", "the shape table below (written from the property statement)"]
 ASSUMPTIONS = ["the corpus shapes are representative of user derive inputs with the same type shapes", "Vec<Vec<T>> needs clap's unstable-v5 feature and is not in the corpus"]
